@@ -269,7 +269,7 @@ for (g, sfn, t) in extract_attrs("libxcm/tp/tcp/xcm_tp_btcp.c"):
 for op, d in (("CONNECT", "btcp_connect (address parse, tconnect_create, xcm_dns_resolve, connect start, first establishment step each failing at will; remote by name or number)"),
               ("SERVER", "btcp_server (parse, synchronous resolution, socket, DSCP/REUSEADDR setsockopt, getsockname, scope, bind, listen each failing at will)"),
               ("ACCEPT", "btcp_accept (creation-only attributes refused, accept4 EAGAIN/EMFILE, option setsockopts failing)")):
-    ob("btcp.life_" + op.lower(), "btcp/life.c", ["-DOP_LIFE_" + op], ["C08", "C05", "C13"], unwind=10, link=BTCP_LINK,
+    ob("btcp.life_" + op.lower(), "btcp/life.c", ["-DOP_LIFE_" + op], ["C08", "C05", "C13", "C04", "C11"], unwind=10, link=BTCP_LINK,
        desc="btcp_init -> " + d + " -> btcp_close | btcp_cleanup over a KERNEL-FD ghost table: every descriptor closed exactly once, no foreign descriptor touched, registrations/bell/tconnect/query released, cleanup leaves the shared epoll set alone; SOCK_NONBLOCK everywhere")
 _btcp_assumptions = [
     "btcp over KERNEL-STREAM stubs: send/recv return 1..len, 0 (recv), or -1 with EAGAIN/EPIPE/ECONNRESET/ETIMEDOUT/EHOSTUNREACH/ENETUNREACH/ECONNREFUSED at the solver's choice; setsockopt may fail at every call",
@@ -288,9 +288,9 @@ UX = {
     "SEND": (["C01", "C03", "C05", "C06", "C17"], "ux_send: size checks first, one send(MSG_EOR|MSG_NOSIGNAL), all-or-nothing, counters move iff accepted"),
     "RECV": (["C01", "C06", "C17"], "ux_receive: one recv(MSG_TRUNC), returns min(record, capacity), to_app counts the delivered bytes"),
     "UPDATE": (["C04", "C16"], "ux_update: epoll mask = map(awaited condition) for connections and servers"),
-    "LIFE_SERVER": (["C08", "C05"], "ux_init -> ux_server with socket/setsockopt/bind/listen failing at will -> (close | cleanup): every descriptor closed exactly once, registrations deleted, socket file unlinked iff owner"),
-    "LIFE_CONNECT": (["C08", "C05"], "ux_init -> ux_connect with every system call failing at will -> (close | cleanup)"),
-    "LIFE_ACCEPT": (["C08", "C05"], "ux_accept with accept failing at will, then close of the accepted connection"),
+    "LIFE_SERVER": (["C08", "C05", "C04"], "ux_init -> ux_server with socket/setsockopt/bind/listen failing at will -> (close | cleanup): every descriptor closed exactly once, registrations deleted, socket file unlinked iff owner"),
+    "LIFE_CONNECT": (["C08", "C05", "C04"], "ux_init -> ux_connect with every system call failing at will -> (close | cleanup)"),
+    "LIFE_ACCEPT": (["C08", "C05", "C04"], "ux_accept with accept failing at will, then close of the accepted connection"),
     "ADDR": (["C10"], "xcm.local_addr / xcm.remote_addr retrieval for any name length and bytes the kernel may report (sockaddr_un up to 110 bytes)"),
 }
 for op, (props, d) in UX.items():
@@ -413,11 +413,11 @@ CS_US = ["EVP_DigestUpdate.0:18", "EVP_DigestFinal_ex.0:154", "EVP_DigestFinal_e
          "memcmp.0:34", "memcpy.0:34", "memset.0:34", "strlen.0:6", "vsnprintf.0:40", "vsnprintf.1:40"]
 ob("ctxstore.key.values", "ctxstore/ctx_h.c", ["-DOP_KEY"], ["C18"], unwind=8, unwindset=CS_US,
    desc="cache key injectivity: two arbitrary designations of four items (absent / by value, 1-2 chars) share a key iff they are the same designation (digest modelled as its byte transcript)")
-ob("ctxstore.key.file", "ctxstore/ctx_h.c", ["-DOP_KEY", "-DKEY_FILE", "-DNO_LINK", "-DTMAX=100"], ["C18"], unwind=8, unwindset=CS_US, timeout=900,
+ob("ctxstore.key.file", "ctxstore/ctx_h.c", ["-DOP_KEY", "-DKEY_FILE", "-DNO_LINK", "-DTMAX=100"], ["C18", "C09"], unwind=8, unwindset=CS_US, timeout=900,
    desc="cache key: an item by file (two paths, arbitrary stat tuples) versus by value: same key iff same designation")
 ob("ctxstore.key.file.symlink", "ctxstore/ctx_h.c", ["-DOP_KEY", "-DKEY_FILE", "-DTMAX=150"], ["C18"], unwind=8, unwindset=CS_US, timeout=3000, tier="thorough", mem_gb=30,
    desc="cache key: as ctxstore.key.file, the path may be a symbolic link (link and target are both part of the key)")
-ob("ctxstore.key.change", "ctxstore/ctx_h.c", ["-DOP_KEY_CHANGE", "-DTMAX=150"], ["C18"], unwind=8, unwindset=CS_US, timeout=900,
+ob("ctxstore.key.change", "ctxstore/ctx_h.c", ["-DOP_KEY_CHANGE", "-DTMAX=150"], ["C18", "C09"], unwind=8, unwindset=CS_US, timeout=900,
    desc="the same by-file designation in two file-system states (path possibly a symbolic link): key changes iff the file or the link's target changed")
 ob("ctxstore.get", "ctxstore/ctx_h.c", ["-DOP_GET", "-DABSTRACT_DIGEST"], ["C18", "C08", "C15"], unwind=8, unwindset=CS_US,
    desc="ctx_store_get_ctx from a cache with/without a matching entry: hit only for the identical designation, use counts, re-read loop when a file changes during loading, every loader (PEM certificate/key/bundle/CRL, key match) failing at will -> EPROTO and nothing cached or leaked; lock released on every path")
@@ -439,7 +439,7 @@ for op, (props, d) in CONF.items():
 
 for tu, tudef in (("tcp", []), ("tls", ["-DTU_TLS"])):
     for op in ("CONNECT", "SERVER", "ACCEPT"):
-        ob("frame.%s.life_%s" % (tu, op.lower()), "frame/life.c", tudef + ["-DOP_LIFE_" + op], ["C08"], unwind=12, flags=["--memory-leak-check"],
+        ob("frame.%s.life_%s" % (tu, op.lower()), "frame/life.c", tudef + ["-DOP_LIFE_" + op], ["C08", "C04", "C05", "C16"], unwind=12, flags=["--memory-leak-check"],
            desc="%s_init (sub-socket create/init failing), %s_%s with address conversion or the byte-stream sub-socket's operation failing, then close|cleanup: sub-socket closed at most once and destroyed exactly once (typestate contract), frame buffers freed (leak check)" % (tu, tu, op.lower()))
 
 for op in ("CONNECT", "SERVER", "ACCEPT"):
@@ -471,12 +471,12 @@ for (g, sfn, t) in extract_attrs("libxcm/tp/tls/xcm_tp_btls.c"):
                     (("empty", "", False), ("one", "a", False), ("two", "a:b", False), ("bad", "!", True), ("good_bad", "a:!", True), ("empty_name", "a::b", True))]
     for vn, vfl in variants:
         ob("btls.setter." + sfn + vn, "btls/setters.c", ["-DSETTER=" + sfn, "-DGETTER=" + g, "-DKIND=%d" % kind, "-DITEM_IDX=%d" % item, "-DFLAG_IDX=%d" % _FLAG.get(sfn, -1), "-DIS_NAMES_B=%s" % ("true" if names else "false")] + vfl,
-           ["C10", "C11"], unwind=(12 if names else 20), unwindset=["memset.0:1400", "ut_calloc.0:18", "ut_realloc.0:34"], link=BTCP_LINK,
+           ["C10", "C11"] + (["C18"] if item >= 0 else ["C09"]), unwind=(12 if names else 20), unwindset=["memset.0:1400", "ut_calloc.0:18", "ut_realloc.0:34"], link=BTCP_LINK,
            desc="real BTLS setter %s from any socket kind/state with %s: refused => EACCES/EINVAL and nothing changed; accepted => reported by %s, other attributes untouched" % (sfn, ("the value " + repr(vfl[2][6:-1])) if names else "any value of its type (7 characters over {NUL,a,b,:,!})", g))
 
-BLIFE = {"CONNECT": (["C08", "C02", "C03", "C09", "C05", "C06", "C18"], "btls_init, btls_connect with policy/address/context/SSL_new/BTCP-connect/hostname failures and any outcome of the first handshake step, then close|cleanup"),
-         "ACCEPT": (["C08", "C02", "C03", "C09", "C05", "C06", "C18"], "btls_accept from a serving socket (inherited policy) with BTCP-accept/policy/context/SSL_new/hostname failures and any first handshake outcome, then close|cleanup"),
-         "SERVER": (["C08", "C18"], "btls_server with address/policy/context/bind failures, then close|cleanup")}
+BLIFE = {"CONNECT": (["C08", "C02", "C03", "C09", "C05", "C06", "C18", "C04"], "btls_init, btls_connect with policy/address/context/SSL_new/BTCP-connect/hostname failures and any outcome of the first handshake step, then close|cleanup"),
+         "ACCEPT": (["C08", "C02", "C03", "C09", "C05", "C06", "C18", "C04"], "btls_accept from a serving socket (inherited policy) with BTCP-accept/policy/context/SSL_new/hostname failures and any first handshake outcome, then close|cleanup"),
+         "SERVER": (["C08", "C18", "C04"], "btls_server with address/policy/context/bind failures, then close|cleanup")}
 for op, (props, d) in BLIFE.items():
     ob("btls.life_" + op.lower(), "btls/life.c", ["-DOP_LIFE_" + op], props, unwind=10, unwindset=["memset.0:1400", "ut_calloc.0:18", "ut_realloc.0:34"],
        desc=d + ": BTCP sub-socket closed/destroyed exactly once (typestate), SSL object + BIO freed, SSL_CTX reference given back, bell registration deleted (owner only); verification mode, CRL/time flags, expected names, BIO and SSL_MODE_ENABLE_PARTIAL_WRITE in place before the handshake starts")
@@ -506,9 +506,9 @@ PROPERTY_META["C20"] = {"assumptions": ["XCM-API contract mock per xcm.h: xcm_se
 # --------------------------------------------------------------------------
 # utls: xcm_tp_utls.c over typestate mocks of its ux and tls sub-sockets
 # --------------------------------------------------------------------------
-UT = {"LIFE_SERVER": (["C08"], "utls_init -> utls_server with every sub-operation failing at will -> (close | cleanup): each sub-socket closed at most once, never after its own failed server(), never destroyed while open"),
-      "LIFE_CONNECT": (["C08", "C01"], "utls_init -> utls_connect (UX first, TLS fallback on ECONNREFUSED) -> close: exactly one live leg, the other released at once"),
-      "LIFE_ACCEPT": (["C08", "C01"], "utls_accept from a serving UTLS socket (UX leg first, then TLS) -> close | cleanup; the server's legs are untouched"),
+UT = {"LIFE_SERVER": (["C08", "C04"], "utls_init -> utls_server with every sub-operation failing at will -> (close | cleanup): each sub-socket closed at most once, never after its own failed server(), never destroyed while open"),
+      "LIFE_CONNECT": (["C08", "C01", "C04"], "utls_init -> utls_connect (UX first, TLS fallback on ECONNREFUSED) -> close: exactly one live leg, the other released at once"),
+      "LIFE_ACCEPT": (["C08", "C01", "C04"], "utls_accept from a serving UTLS socket (UX leg first, then TLS) -> close | cleanup; the server's legs are untouched"),
       "DELEGATE": (["C01", "C03", "C04", "C16", "C17"], "send/receive/finish/counters/max_msg/update of a connected UTLS socket go to the one live leg, results passed through")}
 for op, (props, d) in UT.items():
     ob("utls." + op.lower(), "utls/utls_h.c", ["-DOP_" + op], props, unwind=16, desc=d)
